@@ -554,7 +554,9 @@ func Finish(m *Merged, verifDir string, wall time.Duration, minOutcomes int) int
 		}
 		return 2
 	}
-	if len(r.Outcomes) < minOutcomes {
+	// the vacuity guard protects a silent pass; a run that found a violation
+	// (possibly cutting shards short) has something to say anyway
+	if len(r.Outcomes) < minOutcomes && len(newV) == 0 {
 		fmt.Printf("infrastructure error: vacuity guard: only %d distinct outcomes observed, need >= %d: %v\n", len(r.Outcomes), minOutcomes, r.Outcomes)
 		return 2
 	}
